@@ -217,11 +217,9 @@ theorem paintNote_ok {R R32 : Rat → Rat} {c : Cfg} {n : Nat} {st st' : Rolls} 
     · split at h
       · cases h
       · split at h
-        · split at h
-          · cases h
-            refine ⟨rfl, rfl, rfl, ?_, by omega, by assumption⟩
-            intro hb; rename_i h1 _; simp [hb] at h1
-          · cases h
+        · cases h
+          refine ⟨rfl, rfl, rfl, ?_, by omega, by assumption⟩
+          intro hb; rename_i h1; simp [hb] at h1
         · cases h
           exact ⟨rfl, rfl, rfl, fun _ => rfl, by omega, by assumption⟩
 
